@@ -122,6 +122,34 @@ def run(ctx):
                               {**inp, "names": few}, key="print:too-few-accepted", how=how)
             except Exception:
                 ctx.count("too-few-rejected")
+    # real-valued data (thresholds with many significant digits): read-back oracle only (the exact Lean tie uses
+    # dyadic data); the query points include the training samples that define the thresholds
+    from gemclus.tree import Kauri
+    for it in range(nf // 3):
+        n, d = int(rs.randint(6, 30)), int(rs.randint(1, 4))
+        X = rs.randn(n, d) * float(rs.choice([0.01, 1.0, 1234.5]))
+        try:
+            import gemclus.tree.kauri as K
+            from translator import pyx2py
+            pyx2py.install(kl.translit(False))
+            model = Kauri(max_clusters=int(rs.randint(2, 5)), kernel=str(rs.choice(["linear", "rbf"])),
+                          random_state=int(rs.randint(100))).fit(X)
+            text = printed(model, None)
+            rules = parse_rules(text, None)
+        except Exception as e:
+            ctx.violation(f"print/read-back failed on real-valued data: {type(e).__name__}: {e}", "print", {"X": X.tolist()}, key="print:real-valued:raise", how=how)
+            continue
+        ctx.case(("real", X.tobytes()), model.tree_.n_nodes > 1, None)
+        ctx.count("real-valued-trees")
+        col = lambda nm: int(re.match(r"X\[:, (\d+)\]$", nm).group(1))
+        Q = np.vstack([X, X + 1e-9 * np.abs(X), rs.randn(10, d)])
+        pq = model.predict(Q)
+        for r in range(len(Q)):
+            c = eval_rules(rules, Q[r], col)
+            if c != pq[r]:
+                ctx.violation(f"printed rules give cluster {c} for {Q[r].tolist()}, predict gives {pq[r]} (real-valued thresholds)", "print",
+                              {"X": X.tolist(), "printed": text, "x": Q[r].tolist()}, key="print:unfaithful", how=how)
+                break
     # unfitted / foreign objects are refused
     from gemclus.tree import Kauri, print_kauri_tree
     for obj, what in ((Kauri(), "unfitted"), (object(), "foreign"), (None, "None")):
